@@ -4,6 +4,7 @@ import (
 	"fmt"
 	"go/token"
 	"go/types"
+	"sort"
 	"strings"
 
 	"golang.org/x/tools/go/ssa"
@@ -415,7 +416,7 @@ func (fv *FuncVC) call(x *ssa.Call) {
 	if fc.Trusted {
 		fv.Trusted[key] = true
 	}
-	n := fv.callCount[key]
+	n := fv.callOrdinal(x, key)
 	results := fv.applyContract(x, fc, key, args, argTypes, c.Signature().Results())
 	switch len(results) {
 	case 0:
@@ -486,7 +487,7 @@ func shortTypeNameStd(t types.Type) string {
 
 // applyContract checks the callee's preconditions, havocs its frame and assumes its postconditions.
 func (fv *FuncVC) applyContract(site ssa.Instruction, fc *FuncContract, key string, args []Term, argTypes []types.Type, resTuple *types.Tuple) []Term {
-	n := fv.callCount[key]
+	n := fv.callOrdinal(site, key)
 	fv.callCount[key] = n + 1
 	short := key
 	if i := strings.LastIndex(short, "."); i >= 0 && !strings.HasPrefix(key, "dyn:") && !strings.HasPrefix(key, "iface:") {
@@ -905,4 +906,72 @@ func (fv *FuncVC) zerobase() Term {
 		fv.assume(and(lt(intLit(0), t), lt(t, intLit(65536))))
 	}
 	return t
+}
+
+// callOrdinal numbers the call sites of a callee in source order (stable under
+// changes of the block processing order).
+func (fv *FuncVC) callOrdinal(site ssa.Instruction, key string) int {
+	if fv.callOrd == nil {
+		fv.callOrd = map[ssa.Instruction]int{}
+		type cs struct {
+			in  ssa.Instruction
+			pos int
+			blk int
+			idx int
+		}
+		by := map[string][]cs{}
+		for _, b := range fv.Fn.Blocks {
+			for i, in := range b.Instrs {
+				ci, ok := in.(ssa.CallInstruction)
+				if !ok {
+					continue
+				}
+				k := fv.calleeKey(ci)
+				if k == "" {
+					continue
+				}
+				by[k] = append(by[k], cs{in, int(in.Pos()), b.Index, i})
+			}
+		}
+		for _, l := range by {
+			sort.Slice(l, func(i, j int) bool {
+				if l[i].pos != l[j].pos {
+					return l[i].pos < l[j].pos
+				}
+				if l[i].blk != l[j].blk {
+					return l[i].blk < l[j].blk
+				}
+				return l[i].idx < l[j].idx
+			})
+			for i, c := range l {
+				fv.callOrd[c.in] = i
+			}
+		}
+	}
+	if n, ok := fv.callOrd[site]; ok {
+		return n
+	}
+	return fv.callCount[key]
+}
+
+func (fv *FuncVC) calleeKey(ci ssa.CallInstruction) string {
+	c := ci.Common()
+	if _, ok := c.Value.(*ssa.Builtin); ok {
+		return ""
+	}
+	switch {
+	case c.IsInvoke():
+		return "iface:" + mangle(shortTypeNameStd(c.Value.Type())) + "." + c.Method.Name()
+	case c.StaticCallee() != nil:
+		return fv.W.FuncKey(c.StaticCallee())
+	default:
+		if u, ok := c.Value.(*ssa.UnOp); ok && u.Op == token.MUL {
+			if fa, ok := u.X.(*ssa.FieldAddr); ok {
+				st := fa.X.Type().Underlying().(*types.Pointer).Elem()
+				si := fv.TE.StructInfo(st)
+				return "dyn:" + shortTypeName(st) + "." + si.Fields[fa.Field].GoName
+			}
+		}
+	}
+	return ""
 }
